@@ -22,6 +22,8 @@ func main() {
 	switch *prop {
 	case "C15":
 		genC15(*out, *tier, *seed)
+	case "C03":
+		genC03(*out, *tier, *seed)
 	case "C07":
 		genC07(*out, *tier, *seed)
 	case "C08":
